@@ -27,6 +27,12 @@ func RunSharded(cmd string, args []string, n int) *Report {
 			c := exec.Command(os.Args[0], a...)
 			var stdout, stderr bytes.Buffer
 			c.Stdout, c.Stderr = &stdout, &stderr
+			if dir := os.Getenv("VERIF_SHARD_LOG"); dir != "" { // debugging aid: keep each shard's stderr in a file
+				if f, err := os.Create(fmt.Sprintf("%s/shard-%d.err", dir, i)); err == nil {
+					defer f.Close()
+					c.Stderr = f
+				}
+			}
 			err := c.Run()
 			var child *Report
 			sc := bufio.NewScanner(&stdout)
